@@ -188,12 +188,8 @@ impl<'store> Transposable<'store> for ResultTextSelectionSet<'store> {
                             let source_offset: Offset = intersection.into();
                             if let Some(remainder) = remainder {
                                 if remainder.begin() < intersection.begin() {
-                                    //not a valid intersection, skip to the next
-                                    relative_offsets.clear();
-                                    selectors_per_side[side_i].clear();
-                                    source_textselections.clear();
-                                    source_side = None;
-                                    source_found = false;
+                                    //not a valid intersection (this is not the fragment our text selection begins in), skip to the next
+                                    //(whatever was matched before remains valid)
                                     if config.debug {
                                         eprintln!("[stam transpose] remainder preceeds intersection, bailing out...");
                                     }
